@@ -103,7 +103,7 @@ SubmitClauses(e, c, os, ts) ==
      <<"returned_ids", ("ret" \in DOMAIN e /\ e.k \in {"new", "mixed"}) =>
           /\ Len(e.ret) = Len(ins)
           /\ \A i \in 1..Len(ins) : e.ret[i] = (IF ins[i].k = "new" THEN Len(os) + NewBefore(ins, i) - 1 ELSE -1)>>,
-     <<"new_orders_as_submitted", \A i \in 1..Len(rows) :
+     <<"new_orders_as_submitted", Len(no) = Len(os) + Len(rows) => \A i \in 1..Len(rows) :
           LET o == no[Len(os) + i]  r == rows[i] IN
           /\ o.status = "New" /\ o.side = r.side /\ o.vol = r.vol /\ o.start = r.vol /\ o.trader = r.tr
           /\ o.price = (IF r.price = -1 THEN (IF r.side = "B" THEN MaxPrice ELSE 0) ELSE r.price)
@@ -126,11 +126,11 @@ StepClauses(e, c, os, ts, k) ==
   << <<"same_orders", Len(no) = Len(os)>>,
      <<"no_new_left", \A i \in 1..Len(no) : no[i].status # "New">>,
      <<"trades_append_only", IsPrefix(ts, nt)>>,
-     <<"identity_kept", \A i \in 1..Len(os) : no[i].side = os[i].side /\ no[i].trader = os[i].trader /\ no[i].start = os[i].start>>,
-     <<"terminal_frozen", \A i \in 1..Len(os) : os[i].status \in Terminal => no[i] = os[i]>>,
-     <<"transitions", \A i \in 1..Len(os) : ReachableInStep(os[i], no[i])>>,
-     <<"arrival_in_window", \A i \in placed : no[i].arr >= start>>,
-     <<"arrivals_distinct", \A i, j \in placed : i # j => no[i].arr # no[j].arr>>,
+     <<"identity_kept", Len(no) = Len(os) => \A i \in 1..Len(os) : no[i].side = os[i].side /\ no[i].trader = os[i].trader /\ no[i].start = os[i].start>>,
+     <<"terminal_frozen", Len(no) = Len(os) => \A i \in 1..Len(os) : os[i].status \in Terminal => no[i] = os[i]>>,
+     <<"transitions", Len(no) = Len(os) => \A i \in 1..Len(os) : ReachableInStep(os[i], no[i])>>,
+     <<"arrival_in_window", Len(no) = Len(os) => \A i \in placed : no[i].arr >= start>>,
+     <<"arrivals_distinct", Len(no) = Len(os) => \A i, j \in placed : i # j => no[i].arr # no[j].arr>>,
      <<"trade_times_in_window", \A i \in (Len(ts) + 1)..Len(nt) : nt[i].t >= start>>,
      <<"trade_times_ordered", \A i \in (Len(ts) + 1)..(Len(nt) - 1) : nt[i].t <= nt[i + 1].t>>,
      <<"trades_well_formed", \A i \in (Len(ts) + 1)..Len(nt) :
@@ -138,7 +138,7 @@ StepClauses(e, c, os, ts, k) ==
           /\ t.vol > 0 /\ t.agg # t.pas
           /\ t.agg + 1 \in 1..Len(no) /\ t.pas + 1 \in 1..Len(no)
           /\ no[t.agg + 1].side = Opp(no[t.pas + 1].side) /\ t.side = no[t.pas + 1].side>>,
-     <<"ends_in_window", \A i \in 1..Len(os) : (os[i].status \notin Terminal /\ no[i].status \in Terminal) => no[i].end >= start>> >>
+     <<"ends_in_window", Len(no) = Len(os) => \A i \in 1..Len(os) : (os[i].status \notin Terminal /\ no[i].status \in Terminal) => no[i].end >= start>> >>
 
 \* ---- bourse.step_sim.run with RandomAgent members (py/pyrecord.py --mode sim) -----------------------
 \* The Python RandomAgent as a relation between what it could observe when update was called (the order
